@@ -17,7 +17,8 @@ IsEvent(e) == l <= Len(Traces[tid]) /\ Ev.a = e /\ l' = l + 1 /\ UNCHANGED tid
 
 \* the modifications a trace performs, in order (the spec's Choose announces them)
 ModsOf(t) == LET ms == SelectSeq(Traces[t], LAMBDA e : e.a = "Modify")
-             IN [i \in 1..Len(ms) |-> [path |-> ms[i].args.path, op |-> ms[i].args.op, v |-> ms[i].args.v]]
+             IN [i \in 1..Len(ms) |-> [path |-> ms[i].args.path, op |-> ms[i].args.op, v |-> ms[i].args.v,
+                                        when |-> ms[i].args.when, form |-> ms[i].args.form]]
 \* recorded bytes equal the image up to the free bits (NormalizePrereqs)
 SameWire(obs, w, m) ==
   IF ~HasMatch(m) THEN obs = w
